@@ -638,3 +638,24 @@ pub fn generate_unknown(rng: &mut Rng, n: usize, tier: &str) -> Vec<String> {
     }
     out
 }
+
+/// RUN stream for C04: garbage-heavy programs (>= 1 KiB allocated inside GC-candidate calls), ENABLE_GC set
+pub fn generate_run_gc(rng: &mut Rng, n: usize, _tier: &str) -> Vec<String> {
+    let mut out = Vec::new();
+    for id in 0..n {
+        let blen = 400 + rng.below(500) as usize;
+        let blob = T::Atom(rng.bytes(blen));
+        let (inner, env) = random_program(rng, 15, true);
+        let prog = match rng.below(5) {
+            0 => call(2, vec![quote(call(5, vec![call(4, vec![inner, call(4, vec![call(14, vec![quote(blob.clone()), quote(blob.clone()), quote(blob)]), quote(atom(&[]))])])])), int(1)]),
+            1 => call(13, vec![call(14, vec![quote(blob.clone()), quote(blob.clone()), quote(blob)])]),
+            2 => call(11, vec![call(14, vec![quote(blob.clone()), quote(blob.clone()), quote(blob)]), inner]),
+            3 => call(16, vec![call(13, vec![call(14, vec![quote(blob.clone()), quote(blob.clone()), quote(blob)])]), inner]),
+            _ => inner,
+        };
+        let flags = random_flags(rng) | 0x20;
+        let budget = if rng.chance(1, 4) { rng.below(20000) + 1 } else { 0 };
+        out.push(format!("RUN g{} chia {:x} {} - {} {}", id, flags, budget, trees::to_hex(&prog), trees::to_hex(&env)));
+    }
+    out
+}
